@@ -179,7 +179,7 @@ def generate(seed: int, tier: str) -> Dict[str, Any]:
             elif kind == "clock":
                 ops.append({"op": "advance_clock", "ms": ro.choice([500, 1500, 2000, 400_000, 700_000]), "kind": "clock"})
             elif kind == "state" and two_states:
-                ops.append({"op": "switch_state", "kind": "state"})
+                ops.append({"op": "fork_state", "kind": "state"} if ro.chance(0.3) else {"op": "switch_state", "kind": "state"})
             continue
         now += ro.choice([0, 0, 0, 40 * 86_400_000]) if focus else ro.choice([0, 1, 1000, 3_600_000, 6 * 3_600_000, 12 * 3_600_000, 86_400_000])
         ops.append({"op": "turn", "agent": ro.choice(agents), "text": ro.choice(texts), "turn_id": turn, "now_ms": now})
@@ -210,6 +210,18 @@ def generate(seed: int, tier: str) -> Dict[str, Any]:
             if val is not None:
                 ops.append({"op": "set_cfg", "path": list(knob), "value": copy.deepcopy(val), "kind": "cfg:" + ".".join(knob)})
             ops.append({"op": "turn", "agent": agent, "text": text, "turn_id": i, "now_ms": E.T0_MS})
+    elif r.chance(0.08):
+        # a what-if branch: the engine state is deep-copied after a first turn, both copies then learn something different
+        # (same NUMBER of additions) and are asked the same question
+        agent, text = ro.choice(sorted(world["agents"])), ro.choice(texts if texts else ["apple river"])
+        raw.setdefault("t2", {})["sim_threshold"] = -1.0
+        raw["t2"]["owner_scope"] = r.choice(["any", "agent"])
+        def ep(tag):
+            return {"op": "add_episode", "kind": "add_episode", "ep": {"id": "fork-%s" % tag, "owner": agent, "text": text + " " + tag,
+                                                                          "ts": E.iso_from_ms(E.T0_MS - 1000).replace("+00:00", "Z"), "vec": "text:" + text}}
+        t = lambda i: {"op": "turn", "agent": agent, "text": text, "turn_id": i, "now_ms": E.T0_MS}  # noqa: E731
+        ops = [t(0), {"op": "fork_state", "kind": "state"}, ep("left"), t(1), {"op": "switch_state", "kind": "state"}, ep("right"), t(2),
+               {"op": "switch_state", "kind": "state"}, t(3)]
     return {"world": world, "world_b": world_b, "cfg": raw, "ops": ops}
 
 
@@ -246,6 +258,17 @@ class _Arm(E.EngineRun):
         if op["op"] == "switch_state":
             self.cur = 1 - self.cur
             self.state = self.states[self.cur]
+            return None
+        if op["op"] == "fork_state":
+            # the other engine state becomes a deep copy of the current one (a checkpoint / what-if branch); the two then diverge
+            other = 1 - self.cur
+            st = self.states[self.cur]
+            mgr = st.pop("_cache_mgr", None) if isinstance(st, dict) else None
+            try:
+                self.states[other] = copy.deepcopy(st)
+            finally:
+                if mgr is not None:
+                    st["_cache_mgr"] = mgr
             return None
         return super().step(op)
 
